@@ -127,7 +127,9 @@ class CommunityGameState(PokerGameState):
 
         :return: ({str})
         """
-        valid_action_set = PokerGameState.valid_actions.fget(self)
+        # copy: the base property returns the class-level sets of Action,
+        # which are shared by every game in the process
+        valid_action_set = set(PokerGameState.valid_actions.fget(self))
         if self.is_acting_last_preflop():
             valid_action_set.add(Action.action_raise)
         return valid_action_set
